@@ -44,6 +44,8 @@ SPECS = {
             {"py": "CFLevyModel.implied_cds_spread", "file": "rpylib/numerical/closedform/cflevymodel.py", "coq": "implied_fun",
              "emitter": "py2coq_ext_copula:emit_spread_fun", "expect": ["theta = self._theta(level_a)", "r = self.model.r"],
              "args": SPREAD_ARGS, "ret": "R"},
+            {"py": "CFLevyModel.implied_cds_threshold", "file": "rpylib/numerical/closedform/cflevymodel.py", "coq": "implied_threshold_fun",
+             "emitter": "py2coq_ext_copula:emit_threshold_fun"},
         ],
     },
 }
